@@ -267,4 +267,66 @@ def runFrom (s : St) (acc : List Obs) : List Act → St × List Obs
 
 def run (k maxSize : Nat) (as : List Act) : St × List Obs := runFrom (init k maxSize) [] as
 
+/-! ## the consumer held inside the last barrier's handler
+
+`handleCheckpointBarrier` wakes the parked senders (`registerBarrier` closes `allBarriersReceived`) *before* it
+flushes the batch and captures the DKV checkpoint. `hold sr` stops the consumer at the start of that flush (the
+`batcher.flush` hook): the woken senders run on. In the code the only thing they can do is pass the gate and
+block on the unbuffered `o.events` channel, because its single consumer is busy (`go x` while held = "queued",
+nothing else happens); every other entry point needs `o.mu` or the consumer and blocks outright (refused).
+`resume` lets the consumer finish the barrier handler (flush, capture, ack, reset) and then serve the queue.
+The harness queues at most one sender, and only with a keyed event or watermark, per hold. -/
+
+structure HSt where
+  s : St
+  held : Option Nat := none
+  queue : List Nat := []
+
+inductive HAct where
+  | base (a : Act)
+  | hold (sr : Nat)
+  | resume
+deriving Repr
+
+/-- sender `sr` stands at the gate with the barrier that completes the checkpoint -/
+def completing (s : St) (sr : Nat) : Bool :=
+  !s.stopped && decide (sr < s.k) &&
+  match s.slots sr with
+  | some (.bar id, true) => id == (virtCk s id).1 && ((virtCk s id).2.filter (· ≠ sr)).isEmpty
+  | _ => false
+
+/-- may sender `x` run on while the consumer is held: it has a call in flight carrying a keyed event or watermark -/
+def queueable (s : St) (x : Nat) : Bool :=
+  decide (x < s.k) &&
+  match s.slots x with
+  | some (.ev _ _ _, _) => true
+  | some (.wm _, _) => true
+  | _ => false
+
+def hstep (h : HSt) : HAct → HSt × List Obs
+  | .base a =>
+    match h.held with
+    | none => ({ h with s := (step h.s a).1 }, (step h.s a).2)
+    | some sr0 =>
+      match a with
+      | .go x =>
+        if h.queue.isEmpty && x != sr0 && queueable h.s x then ({ h with queue := [x] }, []) else (h, [])
+      | _ => (h, [])          -- blocks on `o.mu` / the busy consumer: refused by the harness
+  | .hold sr =>
+    match h.held with
+    | none =>
+      if completing h.s sr then ({ h with held := some sr }, [])
+      else ({ h with s := (step h.s (.go sr)).1 }, (step h.s (.go sr)).2)
+    | some _ => (h, [])
+  | .resume =>
+    match h.held with
+    | none => (h, [])
+    | some sr0 =>
+      let r := runFrom h.s [] (.go sr0 :: h.queue.map .go)
+      ({ s := r.1, held := none, queue := [] }, r.2)
+
+def hrunFrom (h : HSt) (acc : List Obs) : List HAct → HSt × List Obs
+  | [] => (h, acc)
+  | a :: as => hrunFrom (hstep h a).1 (acc ++ (hstep h a).2) as
+
 end Rxn.Align
